@@ -49,6 +49,7 @@ class Opts:
         self.p_partial = 0.25       # chance of NaN-like P fields where the trait set allows
         self.type_name = "Ty"
         self.names = None           # optional name provider (C19)
+        self.full_exprs = False     # use expressions that need educe's `full` feature (syn/full)
         self.p_uniform = 0.25       # chance that all fields of a variant share one kind
         self.rich = False           # allow the rich generics flavour (two lifetimes, two type
                                     # parameters, a const parameter, a user where-clause)
@@ -84,7 +85,7 @@ def random_type(rng, traits, opts=None):
     gname, ltname = "G", "'a"
     if o.names:
         gname, ltname = o.names.type_param(rng), o.names.lifetime(rng)
-    kinds = S.make_kinds(gname, garg, ltname)
+    kinds = S.make_kinds(gname, garg, ltname, full=o.full_exprs)
     has_g = flavour in ("G", "aG", "GN", "rich")
     has_a = flavour in ("aG", "a", "rich")
     if has_a:
@@ -486,7 +487,7 @@ def decorate(rng, td, o):
     if ev:
         vi = ev[0]
         vals = tuple(rng.randrange(f.kind.dom) for f in td.variants[vi].fields)
-        td.tsem["Default"]["expr"] = "dflt_value()"
+        td.tsem["Default"]["expr"] = "dflt_value()" if not o.full_exprs else S.emit_value(td, vi, vals, side="7")
         td.tsem["Default"]["expr_val"] = (vi, vals)
         td.extra_items.append("pub fn dflt_value() -> %s {\n    %s\n}\n" %
                               (td.name, S.emit_value(td, vi, vals, side="7")))
